@@ -23,7 +23,9 @@ ASSUMPTIONS = [
 ]
 
 NAMES = [None, "n", "a b", " lead", "trail ", "Prüfstand-é", "7", "-", "x (version 07)", "x (version 07) y", "(version 99)",
-         "12345-1234-1234-12 x"]
+         "12345-1234-1234-12 x",
+         # names that only BEGIN like a numeric identifier (no blank after the version field): not ambiguous in the grammar
+         "12345-1234-1234-12x", "12345-1234-1234-123", "12345-1234-1234-12-"]
 TUPLES = [(0, 0, 0, 0), (99999, 9998, 9998, 99), (10234, 5678, 6789, 9)]
 FIELDS = {"customer": (0, 100000), "project": (1, 10000), "device": (2, 10000), "version": (3, 100)}
 BOUND = {"customer": [0, 1, 9998, 9999, 99999], "project": [0, 1, 9998, 9999], "device": [0, 1, 9998, 9999], "version": [0, 1, 9, 10, 99]}
@@ -95,7 +97,9 @@ def roundtrip(o, fields, name):
         o.cls = "text-differs"
         o.viol("print|text", "str(ConfigId%r) = %r, expected %r" % (fields + (name,), text, exp_text))
         return False
-    ambiguous = exp_ident[0] is None and R.NUM.match(text) is not None
+    # ambiguous in the grammar itself: the WHOLE printed text is also a well-formed numeric identifier text (with a name part).
+    # A text that merely begins like one is not ambiguous - a parser that stops at the prefix is simply wrong
+    ambiguous = exp_ident[0] is None and R.NUM.fullmatch(text) is not None
     try:
         back = ConfigId.create_from_str(text)
     except Exception as e:
